@@ -154,6 +154,9 @@ pub struct Cfg {
     pub graceful_handler: bool,
     /// 1-based index of the handler invocation that returns Err (content handlers only)
     pub fail_at: Option<usize>,
+    /// 0-based index of the streaming content writer (`streaming_*` mutations) whose `write_all`
+    /// returns Err after writing its first piece: a failure during token emission, not in a handler
+    pub fail_stream_at: Option<usize>,
 }
 
 impl Default for Cfg {
@@ -171,6 +174,7 @@ impl Default for Cfg {
             graceful_mem: false,
             graceful_handler: false,
             fail_at: None,
+            fail_stream_at: None,
         }
     }
 }
@@ -192,7 +196,7 @@ impl Cfg {
             "bail_outs": self.bail_outs,
             "encoding": self.encoding.name(), "strict": self.strict, "esi": self.esi, "adjust_charset": self.adjust_charset,
             "max_mem": if self.max_mem == usize::MAX { json!("max") } else { json!(self.max_mem) }, "prealloc": self.prealloc,
-            "graceful_mem": self.graceful_mem, "graceful_handler": self.graceful_handler, "fail_at": self.fail_at,
+            "graceful_mem": self.graceful_mem, "graceful_handler": self.graceful_handler, "fail_at": self.fail_at, "fail_stream_at": self.fail_stream_at,
         })
     }
 }
@@ -287,18 +291,52 @@ fn loc(l: SourceLocation) -> Loc {
     (r.start, r.end)
 }
 
-struct Pieces(Vec<String>, CT);
+/// Per-run bookkeeping of streaming content writers (they run during token emission, on the
+/// thread of the rewriter): how many ran, and which one is told to fail.
+#[derive(Default)]
+pub struct StreamFault {
+    pub calls: std::sync::atomic::AtomicUsize,
+    pub fail_at: Option<usize>,
+    pub failed: std::sync::atomic::AtomicBool,
+}
+
+thread_local! {
+    static STREAM_FAULT: RefCell<Option<std::sync::Arc<StreamFault>>> = const { RefCell::new(None) };
+}
+
+fn arm_stream_fault(fail_at: Option<usize>) -> std::sync::Arc<StreamFault> {
+    let f = std::sync::Arc::new(StreamFault { fail_at, ..Default::default() });
+    STREAM_FAULT.with(|s| *s.borrow_mut() = Some(f.clone()));
+    f
+}
+
+struct Pieces(Vec<String>, CT, Option<std::sync::Arc<StreamFault>>);
 impl StreamingHandler for Pieces {
     fn write_all(self: Box<Self>, sink: &mut StreamingHandlerSink<'_>) -> Result<(), Box<dyn std::error::Error + Send + Sync>> {
-        for p in &self.0 {
+        use std::sync::atomic::Ordering;
+        let fail = match &self.2 {
+            Some(f) => {
+                let k = f.calls.fetch_add(1, Ordering::SeqCst);
+                let hit = f.fail_at == Some(k);
+                if hit {
+                    f.failed.store(true, Ordering::SeqCst);
+                }
+                hit
+            }
+            None => false,
+        };
+        for (i, p) in self.0.iter().enumerate() {
+            if fail && i == 1 {
+                break;
+            }
             sink.write_str(p, self.1.ct());
         }
-        Ok(())
+        if fail { Err("scripted-stream-fail".into()) } else { Ok(()) }
     }
 }
 
 fn stream(p: &[String], ct: CT) -> Box<dyn StreamingHandler + Send + 'static> {
-    Box::new(Pieces(p.to_vec(), ct))
+    Box::new(Pieces(p.to_vec(), ct, STREAM_FAULT.with(|s| s.borrow().clone())))
 }
 
 /// which ops apply to the current token
@@ -632,6 +670,9 @@ pub struct RunOut {
     pub injected_where: Option<(String, Kind, usize)>,
     /// sink length (number of sink calls) at the time the failing call returned
     pub sink_calls_at_error: Option<usize>,
+    /// streaming content writers that ran / whether the scripted one failed
+    pub stream_calls: usize,
+    pub stream_failed: bool,
 }
 
 impl RunOut {
@@ -673,6 +714,7 @@ pub fn run_ext(chunks: &[&[u8]], cfg: &Cfg, poke_after_error: bool) -> RunOut {
 /// `between(i)` is called before write #i (used to interleave threads).
 pub fn run_with(chunks: &[&[u8]], cfg: &Cfg, poke_after_error: bool, between: &mut dyn FnMut(usize)) -> RunOut {
     let sh: Sh = Rc::new(RefCell::new(Shared { fail_at: cfg.fail_at, ..Default::default() }));
+    let stream_fault = arm_stream_fault(cfg.fail_stream_at);
     let sh_outer = sh.clone();
     let mut out_after_write = vec![];
     let mut mem_after_write = vec![];
@@ -732,6 +774,8 @@ pub fn run_with(chunks: &[&[u8]], cfg: &Cfg, poke_after_error: bool, between: &m
         injected: s.injected,
         injected_where: s.injected_where,
         sink_calls_at_error,
+        stream_calls: stream_fault.calls.load(std::sync::atomic::Ordering::SeqCst),
+        stream_failed: stream_fault.failed.load(std::sync::atomic::Ordering::SeqCst),
     }
 }
 
@@ -747,6 +791,7 @@ pub fn run_str(input: &str, cfg: &Cfg) -> (Result<(), ErrKind>, Vec<u8>, Vec<Ev>
 pub fn run_str_via(input: &str, cfg: &Cfg, via_str_settings: bool) -> (Result<(), ErrKind>, Vec<u8>, Vec<Ev>) {
     let sh: Sh = Rc::new(RefCell::new(Shared { fail_at: cfg.fail_at, ..Default::default() }));
     let sh_outer = sh.clone();
+    let _stream_fault = arm_stream_fault(cfg.fail_stream_at);
     let res = crate::engine::guard(|| -> Result<String, ErrKind> {
         if via_str_settings {
             let settings = build_str_settings(cfg, &sh).map_err(ErrKind::Handler)?;
